@@ -49,6 +49,9 @@ func Run(e *core.Env) {
 	disk := simdisk.NewDisk()
 	res := wprog.Execute(e.T, cfg, &restrict, disk.Sink(cfg.Sink))
 	prog := e.T.StopCapture()
+	for k, v := range res.Probes {
+		e.ProbeN(k, v)
+	}
 	e.Note("config", cfg.String())
 	e.Note("ops", res.OpNames)
 	if res.Err != nil {
